@@ -21,7 +21,8 @@ RULE = ("E1 over edit operators: for each base file (valid BF3 files with 0..3 c
         "is applied to the reference AST (addresses, stored/declared lengths with and without the bytes present, tag list incl. duplicates and "
         "over/under-long tag lengths, description/entry/directory sizes, sentinel, entry order, MAC index, swapped MACs, each MAC wrong in exactly one byte at every byte position, trailing and missing "
         "bytes, signature), MACs recomputed, serialised behind a BF3 signature and behind a BEC2 header (singles, pairs for the first file), and read by the real readers. Oracle: accept <=> independent validator accepts, and "
-        "equal content on accept. Distinct = distinct resulting binaries; non-trivial = the edit changed the binary.")
+        "equal content on accept. Distinct = distinct resulting binaries; non-trivial = the edit changed the binary."
+        ' Unedited base files include valid files whose plain components carry the encryption tag id with values 00 02 / empty (accepted and returned unchanged).')
 ASSUMPTIONS = [
     "length edits 'with the bytes present' are applied to plain components only (a ciphertext of non-block length is not covered by the statement)",
     "declared length 0 is excluded as in the property text",
